@@ -158,6 +158,8 @@ type c02World struct {
 	gateDelete bool
 	// a dimension was dropped from a quota's max while guaranteed-usage mode is on
 	gateDimDropped bool
+	// `nodes` harness only: the cluster total comes from node events (verif_c02nodes_test.go); nil = set directly
+	nodes *c02NodeSet
 }
 
 func (w *c02World) byID(id int) *c02D {
@@ -434,6 +436,9 @@ type c02Mgr struct {
 }
 
 func c02NewMgr(w *c02World) *c02Mgr {
+	if w.nodes != nil {
+		return c02nNewMgr(w)
+	}
 	g := NewGroupQuotaManagerForTest()
 	if w.scale {
 		g.setScaleMinQuotaEnabled(true)
